@@ -21,19 +21,20 @@ const modPath = "github.com/resgateio/resgate"
 // Prog is the loaded, type-checked program in SSA form plus the indexes the
 // rules work on. Everything is rebuilt from the working tree on every run.
 type Prog struct {
-	Dir   string
-	Fset  *token.FileSet
-	Pkgs  []*packages.Package
-	SSA   *ssa.Program
-	Repo  []*ssa.Function          // every repository function incl. closures, sorted by name
-	ByNm  map[string]*ssa.Function // short name -> function
-	CG    *callgraph.Graph
-	Typs  map[string]*types.Package // short pkg name ("server", "rescache", ...) -> package
-	parent map[*ssa.Function]*ssa.MakeClosure // closure fn -> its (unique) MakeClosure
-	stores map[*types.Var][]*ssa.Store       // field -> stores through FieldAddr
-	loads  map[*types.Var][]ssa.Instruction   // field -> loads (UnOp on FieldAddr, Field)
-	faddrs map[*types.Var][]*ssa.FieldAddr
-	nAllFuncs int
+	fieldSeen   map[string]string // anchor -> type, recorded for `resverif anchors`
+	Dir         string
+	Fset        *token.FileSet
+	Pkgs        []*packages.Package
+	SSA         *ssa.Program
+	Repo        []*ssa.Function          // every repository function incl. closures, sorted by name
+	ByNm        map[string]*ssa.Function // short name -> function
+	CG          *callgraph.Graph
+	Typs        map[string]*types.Package          // short pkg name ("server", "rescache", ...) -> package
+	parent      map[*ssa.Function]*ssa.MakeClosure // closure fn -> its (unique) MakeClosure
+	stores      map[*types.Var][]*ssa.Store        // field -> stores through FieldAddr
+	loads       map[*types.Var][]ssa.Instruction   // field -> loads (UnOp on FieldAddr, Field)
+	faddrs      map[*types.Var][]*ssa.FieldAddr
+	nAllFuncs   int
 	combs       map[*types.Func]map[int]Comb
 	combMissing []string
 	mayWrite    map[*ssa.Function]map[*types.Var]bool
@@ -265,7 +266,20 @@ func (p *Prog) Field(q string) *types.Var {
 	}
 	for k := 0; k < st.NumFields(); k++ {
 		if st.Field(k).Name() == q[i+1:] {
+			if p.fieldSeen == nil {
+				p.fieldSeen = map[string]string{}
+			}
+			p.fieldSeen[q] = types.TypeString(st.Field(k).Type(), shortQual)
 			return st.Field(k)
+		}
+	}
+	// moved into an embedded struct: promoted field
+	if n.Obj() != nil {
+		if o, _, _ := types.LookupFieldOrMethod(n, true, n.Obj().Pkg(), q[i+1:]); o != nil {
+			if v, isVar := o.(*types.Var); isVar && v.IsField() {
+				p.fuzzy = append(p.fuzzy, q+" -> promoted field")
+				return v
+			}
 		}
 	}
 	// renamed field: a unique field of the same struct with a similar name
@@ -277,8 +291,29 @@ func (p *Prog) Field(q string) *types.Var {
 		p.fuzzy = append(p.fuzzy, q+" -> "+names[j])
 		return st.Field(j)
 	}
+	// renamed beyond recognition: the only field of the recorded type that is not itself a named anchor
+	if want, ok := anchorFieldTypes[q]; ok {
+		hit := -1
+		for k := 0; k < st.NumFields(); k++ {
+			if _, named := anchorFieldTypes[q[:i+1]+st.Field(k).Name()]; named {
+				continue
+			}
+			if types.TypeString(st.Field(k).Type(), shortQual) == want {
+				if hit >= 0 {
+					return nil
+				}
+				hit = k
+			}
+		}
+		if hit >= 0 {
+			p.fuzzy = append(p.fuzzy, q+" -> "+names[hit]+" (by type "+want+")")
+			return st.Field(hit)
+		}
+	}
 	return nil
 }
+
+func shortQual(pk *types.Package) string { return pk.Name() }
 
 // similarName returns the index of the unique candidate that is the same
 // name up to case and common affixes, or contains / is contained in the
